@@ -45,6 +45,7 @@ import (
 type config struct {
 	Edges         string `json:"edges"`          // ndjson of DevMode EDGE labels
 	Texts         string `json:"texts"`          // ndjson of DevModeText CASE labels
+	Paths         string `json:"paths"`          // ndjson of DevModePath PATH labels
 	Work          string `json:"work"`           // directory inside the harness module (import path verifharness/<rel>)
 	WorkRel       string `json:"work_rel"`       // its path relative to the module root
 	Seed          int64  `json:"seed"`           //
@@ -94,6 +95,100 @@ type tmpl struct {
 	Exprs  []string
 	Fresh  string // normal-mode rendering (base64 + error text)
 	Broken string
+	// path shapes (DevModePath.tla): the template lives in its own package; Path is the name the generator is given
+	Shape  string
+	Import string // import path of the package
+	File   string // where the specification says the canonical .templ file is (absolute)
+}
+
+type pathCase struct {
+	Op    string `json:"op"`
+	Name  string `json:"name"`
+	Links []struct {
+		From []string `json:"from"`
+		To   []string `json:"to"`
+	} `json:"links"`
+	G    []string `json:"g"`
+	B    []string `json:"b"`
+	Rel  bool     `json:"rel"`
+	File []string `json:"file"`
+}
+
+// materialise creates a path shape on the real file system below base and returns the template entry: symbolic links
+// as the specification lists them (directory links absolute, file links relative), real directories for everything else.
+func materialise(pc pathCase, n int, base, importBase string) *tmpl {
+	resolve := func(p []string) []string {
+		done := []string{}
+		rest := append([]string{}, p...)
+		for fuel := 16; len(rest) > 0 && fuel > 0; {
+			cur := append(append([]string{}, done...), rest[0])
+			linked := false
+			for _, l := range pc.Links {
+				if strings.Join(l.From, "/") == strings.Join(cur, "/") {
+					rest = append(append([]string{}, l.To...), rest[1:]...)
+					done = []string{}
+					linked = true
+					fuel--
+					break
+				}
+			}
+			if !linked {
+				done = cur
+				rest = rest[1:]
+			}
+		}
+		return done
+	}
+	abs := func(p []string) string { return base + "/" + strings.Join(p, "/") } // not cleaned: ".." stays in the name
+	mk := func(dir string) {
+		if err := os.MkdirAll(dir, 0o755); err != nil {
+			vhlib.Fatal("%v", err)
+		}
+	}
+	mk(base)
+	// shortest links first (directory links before links below them)
+	links := append(pc.Links[:0:0], pc.Links...)
+	sort.Slice(links, func(i, j int) bool { return len(links[i].From) < len(links[j].From) })
+	for _, l := range links {
+		parent := resolve(l.From[:len(l.From)-1])
+		mk(abs(parent))
+		mk(filepath.Dir(abs(resolve(l.To))))
+		from := filepath.Join(abs(parent), l.From[len(l.From)-1])
+		target := abs(resolve(l.To[:len(l.To)-1])) + "/" + l.To[len(l.To)-1]
+		if strings.HasSuffix(l.From[len(l.From)-1], ".templ") {
+			rel, err := filepath.Rel(filepath.Dir(from), target)
+			if err != nil {
+				vhlib.Fatal("%v", err)
+			}
+			target = rel
+		} else {
+			mk(target) // a link to a directory
+		}
+		if err := os.Symlink(target, from); err != nil {
+			vhlib.Fatal("%v", err)
+		}
+	}
+	mk(filepath.Dir(abs(pc.File)))
+	for i, c := range pc.G { // every directory named before a ".." must exist
+		if c == ".." {
+			mk(abs(resolve(pc.G[:i])))
+		}
+	}
+	pkgDir := resolve(pc.B[:len(pc.B)-1])
+	mk(abs(pkgDir))
+	t := &tmpl{NLits: -1, Shape: pc.Name, File: abs(pc.File)}
+	t.Name = fmt.Sprintf("TSHP%02d", n)
+	t.Path = abs(pc.G)
+	if pc.Rel {
+		cwd, _ := os.Getwd()
+		if rel, err := filepath.Rel(cwd, t.Path); err == nil {
+			t.Path = rel
+		}
+	}
+	// the compiler sees the package where the specification's b says (possibly through a link to a directory)
+	t.Import = importBase + "/" + strings.Join(pc.B[:len(pc.B)-1], "/")
+	t.Src = fmt.Sprintf("package shp%02d\n\ntempl %s%s {\n<b>shape %s \"q\" \\</b>{ x }<i>after</i>\n}\n", n, t.Name, signature, pc.Name)
+	return t
 }
 
 var logger = slog.New(slog.NewTextHandler(io.Discard, nil))
@@ -588,6 +683,27 @@ func main() {
 		t.Path = filepath.Join(dir, fmt.Sprintf("t%05d.templ", t.ID))
 		t.Src = source(t, rng)
 	}
+	// path shapes: each in its own directory and package
+	nShapes := 0
+	if cfg.Paths != "" {
+		if err := vhlib.Each(cfg.Paths, func(line []byte) error {
+			var pc pathCase
+			if err := json.Unmarshal(line, &pc); err != nil {
+				return err
+			}
+			if pc.Op != "case" {
+				return nil
+			}
+			nShapes++
+			dir := fmt.Sprintf("shapes/s%02d", nShapes)
+			t := materialise(pc, nShapes, filepath.Join(cfg.Work, dir), "verifharness/"+cfg.WorkRel+"/"+dir)
+			t.ID = len(all) + 1
+			all = append(all, t)
+			return nil
+		}); err != nil {
+			vhlib.Fatal("%v", err)
+		}
+	}
 
 	// ---- generate every template with the real event handler (normal mode) -------------------------
 	gen := generatecmd.NewFSEventHandler(logger, cfg.Work, false, []generator.GenerateOpt{}, false, false, generatecmd.FileWriter, false)
@@ -655,7 +771,13 @@ func main() {
 		if t.Broken != "" {
 			continue
 		}
-		regs.WriteString(fmt.Sprintf("\t%q: p%02d.%s,\n", t.Name, t.Pkg, t.Name))
+		if t.Shape != "" {
+			alias := strings.ToLower(t.Name)
+			imports.WriteString(fmt.Sprintf("\t%s %q\n", alias, t.Import))
+			regs.WriteString(fmt.Sprintf("\t%q: %s.%s,\n", t.Name, alias, t.Name))
+		} else {
+			regs.WriteString(fmt.Sprintf("\t%q: p%02d.%s,\n", t.Name, t.Pkg, t.Name))
+		}
 		ids = append(ids, t.Name)
 	}
 	drv := filepath.Join(cfg.Work, "drv")
@@ -724,6 +846,7 @@ func main() {
 		vhlib.Fatal("%v", err)
 	}
 	sameChecked := 0
+	shapesChecked, shapeDrift := 0, 0
 	verbatimChecked := 0
 	for _, t := range all {
 		if t.Broken != "" {
@@ -732,8 +855,21 @@ func main() {
 		sameChecked++
 		if got := devAll[t.Name].String(); got != fresh[t.Name].String() {
 			fails++
-			vhlib.Fail("DevEqualsNormal.TextFileRoundTrip", "development-mode rendering with the template's own text file differs from the normal rendering",
-				map[string]any{"template": t.Src, "normal": decode(fresh[t.Name]), "dev": decode(devAll[t.Name])})
+			if t.Shape != "" {
+				vhlib.Fail("TextFileName.WriterReaderDisagree", "the running program does not find (or finds another) text file than the generator wrote for this way of reaching the template",
+					map[string]any{"path_shape": t.Shape, "generator_was_given": t.Path, "canonical_template_file": t.File, "normal": decode(fresh[t.Name]), "dev": decode(devAll[t.Name]),
+						"text_file_written": templruntime.GetDevModeTextFileName(t.Path)})
+			} else {
+				vhlib.Fail("DevEqualsNormal.TextFileRoundTrip", "development-mode rendering with the template's own text file differs from the normal rendering",
+					map[string]any{"template": t.Src, "normal": decode(fresh[t.Name]), "dev": decode(devAll[t.Name])})
+			}
+		}
+		if t.Shape != "" {
+			shapesChecked++
+			// model drift only: the name the generator wrote to must be the name of the specification's canonical file
+			if templruntime.GetDevModeTextFileName(t.Path) != templruntime.GetDevModeTextFileName(t.File) {
+				shapeDrift++
+			}
 		}
 		if t.Text != nil {
 			// the contents of an HTML comment are rendered verbatim: an oracle for the literal's bytes that is
@@ -1042,6 +1178,7 @@ func main() {
 		"packages": npkg, "build_seconds": buildSecs, "rounds": maxRound,
 		"no_rebuild_checked": noRebuild, "rebuild_requested": rebuilds, "premise_failed": premiseFailed, "skipped_not_generated": skippedBroken,
 		"generator_drift": drift, "text_file_drift": textDrift,
+		"path_shapes_checked": shapesChecked, "path_shapes": nShapes, "path_shape_name_drift": shapeDrift,
 		"text_file_checked_after_edit": txtChecked, "text_file_stale_after_edit": staleTxt, "text_updated_decision_drift": txtDecisionDrift,
 		"text_moved_across_go_code_replayed": boundaryReplayed, "stream": streamRes,
 		"real_differs_from_coded_rule": realVsCoded, "real_differs_from_codehash_rule": realVsHash,
